@@ -147,6 +147,29 @@ def _biopython_table_check(vectors):
                 raise core.MachineryFailure("codon table transcription in Dna.tla differs from Biopython for %s" % c)
 
 
+def check_order(job):
+    """The same reverse complements asked in one order of the encodings, in a process where nothing was asked before: the answer
+    for one encoding must not depend on which encoding was used first (Dna.tla's RevComp is a function of the text alone)."""
+    import bionumpy as bnp
+    from bionumpy.sequence import get_reverse_complement
+    from bionumpy.encodings.alphabet_encoding import ACGTnEncoding
+    perm, vecs = job
+    encs = {"ascii": None, "ACGT": bnp.DNAEncoding, "ACGTN": ACGTnEncoding}
+    bad, n = [], 0
+    for pos, ename in enumerate(perm):
+        for v in vecs:
+            t, want = "".join(v["s"]), "".join(v["rc"])
+            if ename == "ACGT" and "N" in t.upper():
+                continue
+            enc = encs[ename]
+            o = outcome(lambda: get_reverse_complement(bnp.as_encoded_array(t, enc) if enc is not None else bnp.as_encoded_array(t)).to_string())
+            n += 1
+            if o[0] != "ok" or _up(o[1]) != _up(want):
+                bad.append({"what": "reverse complement depends on which encoding was used earlier in the process", "tags": {"op": "revcomp-order", "encoding": ename, "order": "-".join(perm)},
+                            "group": {"op": "revcomp-order", "order": "-".join(perm)}, "vectors": [v], "expected": want, "observed": o})
+    return {"n": n, "nt": ["order|" + "-".join(perm)], "bad": bad}
+
+
 def run(ctx):
     quick = ctx.tier == "quick"
     alpha = ["A", "C", "G", "T", "N", "a", "c", "g", "t", "n"]
@@ -180,6 +203,10 @@ def run(ctx):
     ctx.sample({k: seqv[57][k] for k in ("s", "rc")})
     ctx.sample(codv[100])
     ctx.absorb(core.pmap(check_group, groups, chunk=4))
+    # every order of the three encodings, each in a process of its own (a table cached for one encoding must not serve another)
+    import itertools as _it
+    pick = [v for v in seqv if len(v["s"]) == 3 and "".join(v["s"]) in ("ACG", "TNA", "gcn", "NNT", "acT")]
+    ctx.absorb(core.pmap_isolated(check_order, [(list(p), pick) for p in _it.permutations(["ascii", "ACGT", "ACGTN"])]))
     ctx.exhaustive = True
     return ctx.finish(RULE, assumptions=[
         "letters are compared case-insensitively (alphabet encodings decode to upper case; the property fixes the letter, not its case)",
